@@ -135,7 +135,8 @@ def build_asset(a, ctx):
                  max_cap=a.get("max_cap", 0.0), efficiency=a.get("efficiency", 1.0))
         if t == "transport":
             return Transport(**k)
-        k.update(min_take=take(a.get("min_take"), ctx, naive), max_take=take(a.get("max_take"), ctx, naive))
+        k.update(min_take=take(a.get("min_take"), ctx, naive, a.get("take_form", "list")),
+                 max_take=take(a.get("max_take"), ctx, naive, a.get("take_form", "list")))
         return ExtendedTransport(**k)
     if t == "storage":
         k = _common(a, ctx)
